@@ -3,17 +3,18 @@
 // harness-file: messages__handshake.rs
 // harness: c08_handshake_validate_spec
 // config: 
-// failed-check: InvalidPeerId only for a different id @ ../vh/messages__handshake.rs:72:38 in function messages::handshake::verif_kani::c08_handshake_validate_spec
 // failed-check: accepted only when hash and expected id match @ ../vh/messages__handshake.rs:70:19 in function messages::handshake::verif_kani::c08_handshake_validate_spec
-// native-result: /var/tmp/rdest-verif.C08.16021/cfg-default/vh/messages__handshake.rs:72:38: InvalidPeerId only for a different id
+// native-result: /var/tmp/rdest-verif.C08.1325/cfg-default/vh/messages__handshake.rs:70:19: accepted only when hash and expected id match
 // rerun: cd /verif && ./check C08 --replay /verif/evidence/replay/C08-c08_handshake_validate_spec.rs
 /// Test generated for harness `messages::handshake::verif_kani::c08_handshake_validate_spec` 
 ///
-/// Check for `assertion`: ""InvalidPeerId only for a different id""
+/// Check for `assertion`: ""accepted only when hash and expected id match""
 
 #[test]
-fn kani_concrete_playback_c08_handshake_validate_spec_7484633978586688796() {
+fn kani_concrete_playback_c08_handshake_validate_spec_1421183467625716507() {
     let concrete_vals: Vec<Vec<u8>> = vec![
+        // 0
+        vec![0],
         // 255
         vec![255],
         // 255
@@ -28,154 +29,152 @@ fn kani_concrete_playback_c08_handshake_validate_spec_7484633978586688796() {
         vec![255],
         // 255
         vec![255],
-        // 255
-        vec![255],
-        // 255
-        vec![255],
-        // 255
-        vec![255],
-        // 255
-        vec![255],
-        // 255
-        vec![255],
-        // 255
-        vec![255],
-        // 255
-        vec![255],
-        // 255
-        vec![255],
-        // 255
-        vec![255],
-        // 255
-        vec![255],
-        // 255
-        vec![255],
-        // 255
-        vec![255],
-        // 255
-        vec![255],
-        // 255
-        vec![255],
-        // 255
-        vec![255],
-        // 255
-        vec![255],
-        // 255
-        vec![255],
-        // 255
-        vec![255],
-        // 255
-        vec![255],
-        // 255
-        vec![255],
-        // 255
-        vec![255],
-        // 255
-        vec![255],
-        // 255
-        vec![255],
-        // 255
-        vec![255],
-        // 255
-        vec![255],
-        // 255
-        vec![255],
-        // 255
-        vec![255],
-        // 255
-        vec![255],
-        // 255
-        vec![255],
-        // 255
-        vec![255],
-        // 255
-        vec![255],
-        // 255
-        vec![255],
-        // 255
-        vec![255],
-        // 127
-        vec![127],
-        // 127
-        vec![127],
-        // 127
-        vec![127],
-        // 127
-        vec![127],
-        // 127
-        vec![127],
-        // 127
-        vec![127],
-        // 127
-        vec![127],
-        // 127
-        vec![127],
-        // 127
-        vec![127],
-        // 127
-        vec![127],
-        // 127
-        vec![127],
-        // 127
-        vec![127],
-        // 127
-        vec![127],
-        // 127
-        vec![127],
-        // 127
-        vec![127],
-        // 127
-        vec![127],
-        // 127
-        vec![127],
-        // 127
-        vec![127],
-        // 127
-        vec![127],
-        // 127
-        vec![127],
+        // 0
+        vec![0],
+        // 0
+        vec![0],
+        // 0
+        vec![0],
+        // 0
+        vec![0],
+        // 0
+        vec![0],
+        // 0
+        vec![0],
+        // 0
+        vec![0],
+        // 192
+        vec![192],
+        // 63
+        vec![63],
+        // 192
+        vec![192],
+        // 63
+        vec![63],
+        // 0
+        vec![0],
+        // 63
+        vec![63],
+        // 63
+        vec![63],
+        // 63
+        vec![63],
+        // 63
+        vec![63],
+        // 63
+        vec![63],
+        // 63
+        vec![63],
+        // 63
+        vec![63],
+        // 63
+        vec![63],
+        // 63
+        vec![63],
+        // 63
+        vec![63],
+        // 63
+        vec![63],
+        // 63
+        vec![63],
+        // 63
+        vec![63],
+        // 63
+        vec![63],
+        // 63
+        vec![63],
+        // 63
+        vec![63],
+        // 63
+        vec![63],
+        // 63
+        vec![63],
+        // 63
+        vec![63],
+        // 63
+        vec![63],
         // 1
         vec![1],
-        // 127
-        vec![127],
-        // 127
-        vec![127],
-        // 127
-        vec![127],
-        // 127
-        vec![127],
-        // 127
-        vec![127],
-        // 127
-        vec![127],
-        // 127
-        vec![127],
-        // 127
-        vec![127],
-        // 127
-        vec![127],
-        // 127
-        vec![127],
-        // 127
-        vec![127],
-        // 127
-        vec![127],
-        // 127
-        vec![127],
-        // 127
-        vec![127],
-        // 127
-        vec![127],
-        // 127
-        vec![127],
-        // 127
-        vec![127],
-        // 127
-        vec![127],
-        // 127
-        vec![127],
-        // 127
-        vec![127],
+        // 255
+        vec![255],
+        // 255
+        vec![255],
+        // 255
+        vec![255],
+        // 255
+        vec![255],
+        // 255
+        vec![255],
+        // 255
+        vec![255],
+        // 255
+        vec![255],
+        // 0
+        vec![0],
+        // 0
+        vec![0],
+        // 0
+        vec![0],
+        // 0
+        vec![0],
+        // 0
+        vec![0],
+        // 0
+        vec![0],
+        // 0
+        vec![0],
+        // 192
+        vec![192],
+        // 63
+        vec![63],
+        // 192
+        vec![192],
+        // 63
+        vec![63],
+        // 0
+        vec![0],
+        // 1
+        vec![1],
+        // 63
+        vec![63],
+        // 63
+        vec![63],
+        // 63
+        vec![63],
+        // 63
+        vec![63],
+        // 63
+        vec![63],
+        // 63
+        vec![63],
+        // 63
+        vec![63],
+        // 63
+        vec![63],
+        // 63
+        vec![63],
+        // 63
+        vec![63],
+        // 63
+        vec![63],
+        // 63
+        vec![63],
+        // 63
+        vec![63],
+        // 63
+        vec![63],
+        // 63
+        vec![63],
+        // 63
+        vec![63],
+        // 63
+        vec![63],
+        // 63
+        vec![63],
+        // 63
+        vec![63],
+        // 63
+        vec![63],
     ];
     kani::concrete_playback_run(concrete_vals, c08_handshake_validate_spec);
 }
